@@ -178,7 +178,10 @@ fn xyz_text(lines: &[Line], crlf: bool) -> String {
         let mut cols: Vec<String> = l.xyz.to_vec();
         cols.extend(l.rgb.iter().map(|c| c.to_string()));
         cols.extend(l.extra.iter().cloned());
-        cols.truncate(l.keep as usize);
+        // `keep` below 9 cuts the line short; 9 and more keep every column
+        if l.keep < 9 {
+            cols.truncate(l.keep as usize);
+        }
         out.push_str(&cols.join(" "));
         out.push_str(if crlf { "\r\n" } else { "\n" });
     }
@@ -368,6 +371,13 @@ impl Check for C20 {
             big.push(Line { xyz: [format!("{}", i as f32 * 0.25), format!("{}", -(i as f32)), "1.5".into()], rgb: [(i % 256) as u8, (i / 7 % 256) as u8, 255 - (i % 256) as u8], extra: vec![], keep: 6 });
         }
         let mut out = vec![Case::Colors, Case::Xyz { lines: big, crlf: false }];
+        // lines of 2 KiB .. 40 KiB (thousands of extra columns that look like colour values)
+        for cols in [1000usize, 2040, 3000, 20_000] {
+            let long: Vec<Line> = (0..3u32)
+                .map(|i| Line { xyz: [format!("{}", i as f32 + 0.5), "2".into(), "-3.25".into()], rgb: [i as u8, 7, 200], extra: if i == 1 { vec!["7".to_string(); cols] } else { vec![] }, keep: 9 })
+                .collect();
+            out.push(Case::Xyz { lines: long, crlf: cols == 3000 });
+        }
         // every page of a 300-page file damaged in turn; the pages around multiples of 255 / 256 of a bigger one
         out.push(Case::CrcSweep { pages: 300, first: 0, step: 1 });
         out.push(Case::CrcSweep { pages: 1100, first: 254, step: 255 });
@@ -388,7 +398,7 @@ impl Check for C20 {
         out
     }
     fn describe_fixed(_t: Tier) -> Option<String> {
-        Some("one file with all 256 values in each colour channel; one file with 9000 points (more than one data packet); e57-check-crc on a 300-page file with every page damaged in turn and on a 1100-page file at the multiples of 255 and 256; XYZ files of n points for 3 x 68 consecutive n (end of the point data at every offset within a page, 1 to 3 data packets); 15 x 68 XYZ files whose point count and longest number move the end of the XML section over every offset within a page".into())
+        Some("one file with all 256 values in each colour channel; one file with 9000 points (more than one data packet); 4 files with one line of 2 to 40 KiB; e57-check-crc on a 300-page file with every page damaged in turn and on a 1100-page file at the multiples of 255 and 256; XYZ files of n points for 3 x 68 consecutive n (end of the point data at every offset within a page, 1 to 3 data packets); 15 x 68 XYZ files whose point count and longest number move the end of the XML section over every offset within a page".into())
     }
     fn gen(s: &mut Src, _t: Tier) -> Case {
         if s.chance(1, 10) {
@@ -411,7 +421,8 @@ impl Check for C20 {
                     } else {
                         [s.byte(), s.byte(), *s.pick(&[0u8, 1, 127, 128, 254, 255])]
                     },
-                    extra: (0..s.weighted(&[4, 1, 1])).map(|_| gen::ext_name(s)).collect(),
+                    // rarely a line of several thousand bytes (thousands of extra columns)
+                    extra: if s.chance(1, 80) { (0..1000 + s.below(2500)).map(|k| ["7", "255", "x"][k as usize % 3].to_string()).collect() } else { (0..s.weighted(&[4, 1, 1])).map(|_| gen::ext_name(s)).collect() },
                     keep: if s.chance(1, 8) { s.below(6) as u8 } else { 9 },
                 })
                 .collect();
